@@ -31,8 +31,8 @@ def random_lex(rng):
         if rng.random() < p:
             lex[k] = rng.choice(choices)
     maybe("eol", ["\r\n"])
-    maybe("num.scale", ["expE", "expe", "plus", "tz"], 0.5)
-    maybe("num.limit", ["expE", "expe", "plus", "tz"], 0.5)
+    maybe("num.scale", ["expE", "expe", "plus", "tz", "nz"], 0.5)
+    maybe("num.limit", ["expE", "expe", "plus", "tz", "nz"], 0.5)
     maybe("empty", ["omit"])
     maybe("blank", [0])
     maybe("quote", [True])
@@ -99,9 +99,9 @@ def render(desc, lex=None, encoding="iso-8859-1"):
     block(["[NODE] " + ",".join(e["name"] for e in desc["ecus"])])
 
     d_node = ['%s "%s";' % (e["name"], e["comment"]) for e in desc["ecus"] if e.get("comment")]
-    d_msg = ['%d %s "%s";' % (fr["id"], "X" if fr["extended"] else "S", fr["comment"]) for fr in desc["frames"] if fr.get("comment")]
+    d_msg = ['%d %s "%s";' % (fr["id"], "X" if fr["extended"] else "S", fr["comment"]) for fr in desc["frames"] if fr.get("comment") is not None]
     d_sig = ['%d %s %s "%s";' % (fr["id"], "X" if fr["extended"] else "S", sg["name"], sg["comment"])
-             for fr in desc["frames"] for sg in fr["signals"] if sg.get("comment")]
+             for fr in desc["frames"] for sg in fr["signals"] if sg.get("comment") is not None]
     body = sect("DESC_NET", []) + ([""] if lx["blank"] else []) + sect("DESC_NODE", order("DESC_NODE", d_node)) + ([""] if lx["blank"] else []) \
         + sect("DESC_MSG", order("DESC_MSG", d_msg)) + ([""] if lx["blank"] else []) + sect("DESC_SIG", order("DESC_SIG", d_sig))
     block(["[START_DESC]"] + body + ["[END_DESC]"])
